@@ -108,7 +108,17 @@ func c06FetchSet(d *c12Dag, viol func(sig, detail string), r *core.Run) {
 			}
 		}
 		if len(missing) > 0 {
-			viol("entity-not-fully-fetched "+via+" "+d.c.Kind, fmt.Sprintf("%s: %d of %d entity blocks never requested: %s", d.c, len(missing), len(d.blocks), shortList(missing)))
+			class := ""
+			if d.tree != nil {
+				empty := d.tree.EmptySpan()
+				class = " empty-chunks-only"
+				for _, m := range missing {
+					if !empty[m.KeyString()] {
+						class = ""
+					}
+				}
+			}
+			viol("entity-not-fully-fetched "+via+" "+d.c.Kind+class, fmt.Sprintf("%s: %d of %d entity blocks never requested: %s", d.c, len(missing), len(d.blocks), shortList(missing)))
 		}
 	}
 }
@@ -124,12 +134,17 @@ func c06Withheld(d *c12Dag, via string, miss cid.Cid, kind store.ErrKind, viol f
 		return
 	}
 	if err == nil {
-		viol("partial-entity-no-error "+via+" "+d.c.Kind, fmt.Sprintf("%s: block %s (kind %d) is unavailable but %s returned no error", d.c, short(miss), kind, via))
+		class := ""
+		if d.tree != nil && d.tree.EmptySpan()[miss.KeyString()] {
+			class = " empty-chunks-only"
+		}
+		viol("partial-entity-no-error "+via+" "+d.c.Kind+class, fmt.Sprintf("%s: block %s (kind %d) is unavailable but %s returned no error", d.c, short(miss), kind, via))
 	}
 }
 
 func c06Transient(d *c12Dag, via string, x *xplore.Ctx, viol func(sig, detail string)) string {
 	failed := 0
+	loaded := map[string]bool{}
 	d.s.ResetLogs()
 	d.s.OnRead = func(c cid.Cid, nth int) error {
 		if c.Equals(d.root) {
@@ -139,12 +154,28 @@ func c06Transient(d *c12Dag, via string, x *xplore.Ctx, viol func(sig, detail st
 			failed++
 			return store.MakeErr(store.AllKinds[k-1], c)
 		}
+		loaded[c.KeyString()] = true
 		return nil
 	}
 	defer func() { d.s.OnRead = nil }()
 	err := c06Do(d, via)
 	if failed > 0 && err == nil {
-		viol("partial-entity-no-error "+via+" "+d.c.Kind, fmt.Sprintf("%s: %d load(s) failed (choices %v) but %s returned no error", d.c, failed, x.Choices, via))
+		// a load that failed once and succeeded when the block was requested
+		// again leaves nothing partial; what must not happen is success with an
+		// entity block that was never loaded
+		var never []cid.Cid
+		var empty map[string]bool
+		if d.tree != nil {
+			empty = d.tree.EmptySpan()
+		}
+		for _, b := range d.blocks {
+			if !loaded[b.KeyString()] && !empty[b.KeyString()] {
+				never = append(never, b)
+			}
+		}
+		if len(never) > 0 {
+			viol("partial-entity-no-error "+via+" "+d.c.Kind, fmt.Sprintf("%s: %d load(s) failed (choices %v), blocks %s were never loaded, but %s returned no error", d.c, failed, x.Choices, shortList(never), via))
+		}
 	}
 	if failed == 0 && err != nil {
 		viol("error-without-fault "+via, fmt.Sprintf("%s: %v", d.c, err))
@@ -166,6 +197,11 @@ func runC06(r *core.Run) {
 	}
 	for _, f := range files {
 		cases = append(cases, c05Case{Kind: "file", File: f})
+	}
+	// legal encodings neither writer emits: dag-pb leaves, absent BlockSizes /
+	// FileSize, empty chunks in the middle
+	for _, h := range gen.HandFamily() {
+		cases = append(cases, c05Case{Kind: "hand", Hand: h.Label})
 	}
 	usize := 9
 	fanouts := []int{8, 16, 256}
